@@ -193,6 +193,20 @@ BodyOK(b) ==
     [] b.cls = "Polyline" -> Len(b.v2) >= 2
     [] OTHER -> b.cls \in {"Dipole", "CustomSource"}
 
+\* degenerate-but-accepted geometries: the object constructors reject vanishing sizes, the functional interface
+\* (getB("Cuboid", observers, dimension=...)) and magpylib.core accept them.  A body with a vanishing size is a sheet, a
+\* line or a point: it has no interior, Classify gives "on" / "out", and Sets names its rim (edge, corner, rim, ...) and
+\* the extensions exactly as for a regular body.
+DegenerateOK(b) ==
+  CASE b.cls = "Cuboid" -> (\A i \in 1..3 : b.dim2[i] >= 0) /\ (\E i \in 1..3 : b.dim2[i] = 0)
+    [] b.cls = "Cylinder" -> b.d2 >= 0 /\ b.h2 >= 0 /\ (b.d2 = 0 \/ b.h2 = 0)
+    [] b.cls = "Sphere" -> b.d2 = 0
+    [] b.cls = "CylinderSegment" -> /\ 0 <= b.r12 /\ b.r12 <= b.r22 /\ b.h2 >= 0 /\ b.p1 <= b.p2 /\ b.p2 - b.p1 <= 8
+                                    /\ (b.r12 = b.r22 \/ b.h2 = 0 \/ b.p1 = b.p2)
+    [] b.cls = "Circle" -> b.d2 = 0
+    [] b.cls = "Polyline" -> Len(b.v2) = 2 /\ b.v2[1] = b.v2[2]
+    [] OTHER -> FALSE
+
 \* "in" / "on" / "out" of a local point (doubled coordinates) for a magnet body
 Classify(b, x) ==
   CASE b.cls = "Cuboid" -> Comb(SetOf(CuboidT(b, x)))
